@@ -244,6 +244,38 @@ def decide(assertions, timeout_ms, order=None):
     return "unknown", "portfolio", None
 
 
+def guess_model(asserts, seed, tries=3):
+    """cheap pre-pass for refutable obligations (a wrong polynomial differs from the right one almost everywhere, but nlsat can
+    take minutes to produce a model in 20 variables): random small rationals for the real variables, integers left to the
+    solver; z3 itself checks the ground instance, so a 'sat' here is a solver verdict with a model like any other."""
+    import z3
+    from . import xa
+    vs = set()
+    for a in asserts:
+        vs |= xa._vars(a)
+    rng = random.Random(seed * 31 + len(vs))
+    names = sorted(v for v in vs if not v.startswith("fn:"))
+    if not names or len(names) > 200:
+        return None, None, None
+    free = [n_ for n_ in names if not (n_.endswith(".re") or n_.endswith(".im"))]
+    if len(free) > 2 or len(free) == len(names):
+        return None, None, None      # only for obligations that become (nearly) ground once the generic entries are fixed
+    for t in range(tries):
+        s = z3.Solver()
+        s.set("timeout", 4000)
+        s.add(asserts)
+        ok = True
+        for nme in names:
+            if nme.endswith(".re") or nme.endswith(".im"):
+                s.add(z3.Real(nme) == z3.RealVal("%d/%d" % (rng.randint(-12, 12), rng.choice((1, 2, 3, 4)))))
+        try:
+            if str(s.check()) == "sat":
+                return "sat", "z3-ground-instance", s
+        except z3.Z3Exception:
+            return None, None, None
+    return None, None, None
+
+
 def run_num(harness, params, values, rng=None):
     from . import xa
     env = xa.Env("num", values=values, rng=rng)
@@ -336,6 +368,14 @@ def run_instance(modname, hname, params, opts, conn=None):
                 ob = {"name": name, "path": res["paths"], "kind": kind, "pc_len": len(pc)}
                 ts = time.time()
                 simp = z3.simplify(neg, som=True)
+                if kind == "eq" and not z3.is_false(simp) and not z3.is_true(simp) and opts.get("som_blowup", False):
+                    # polynomial identities: let z3's rewriter expand to a full sum of monomials (default som_blowup=10 stops early)
+                    try:
+                        simp2 = z3.simplify(neg, som=True, som_blowup=10 ** 7)
+                        if z3.is_false(simp2):
+                            simp = simp2
+                    except z3.Z3Exception:
+                        pass
                 if z3.is_false(simp):
                     ob.update(result="unsat", trivial=True, t=0.0)
                 elif z3.is_true(simp):
@@ -350,7 +390,9 @@ def run_instance(modname, hname, params, opts, conn=None):
                     nvars = len(xa._vars(simp))
                     goals = [simp] + pc
                     asserts = list(env._closure(goals)) + list(pc) + [simp]
-                    r, engine, s = decide(asserts, timeout_ms)
+                    r, engine, s = guess_model(asserts, seed)
+                    if r is None:
+                        r, engine, s = decide(asserts, timeout_ms)
                     ob.update(result=str(r), trivial=False, t=round(time.time() - ts, 3), nvars=nvars, engine=engine)
                     if str(r) == "unknown":
                         ob["reason"] = "timeout/unknown in all of z3-nlsat, z3-smt-nla, cvc5"
